@@ -1,6 +1,6 @@
 (* C18 — the Dec! macro and runtime parsing agree on every literal. *)
 From FP Require Import Machine SrcConsts Pow10 Parser Out RunMore.
-From FP Require Import MachineFacts MacroFacts.
+From FP Require Import MachineFacts MacroFacts SwarFacts ParserFacts ParserMore.
 
 (* The two separately written exponent foldings (macro: 10i128.pow + checked_mul,
    `> 0` first; from_str: `< 0` first, checked_mul_pow_ten) give the same
@@ -33,6 +33,16 @@ Check C18_macro_agrees_with_from_str :
     (exists r, str_to_dec pf (strip_sign_blank s) = Val r) ->
     same_result (dec_macro pf s) (from_str pf (strip_sign_blank s)).
 Print Assumptions C18_macro_agrees_with_from_str.
+
+(* the premise discharged by the parser theorems (C06): for every byte string *)
+Theorem C18_macro_agrees_every_string :
+  forall pf s, Forall byte_ok s -> len s < 2 ^ 62 ->
+    same_result (dec_macro pf s) (from_str pf (strip_sign_blank s)).
+Proof. exact macro_agrees_total. Qed.
+Check C18_macro_agrees_every_string :
+  forall pf s, Forall byte_ok s -> len s < 2 ^ 62 ->
+    same_result (dec_macro pf s) (from_str pf (strip_sign_blank s)).
+Print Assumptions C18_macro_agrees_every_string.
 
 Theorem C18_sign_blank_removed :
   forall sg rest, (sg = 45 \/ sg = 43) -> strip_sign_blank (sg :: 32 :: rest) = sg :: rest.
